@@ -85,6 +85,18 @@ def step (st : St) (n : Nat) (line : String) : St × List Verdict :=
         (if stamps.eraseDups.length > 1 then [s!"Recovery Time Stamp changed during the association: {stamps.eraseDups}"] else []) ++
         (if !(txList obs "agent_tx_during").isEmpty then ["the agent sent its own heartbeat although the peer's heartbeats arrived more often than the interval (not postponed)"] else [])
       (st, o fs)
+    | "peerhbout" =>
+      let iv := getNat j "iv_us"
+      let gap := (getObj? obs "gap_us").bind (·.getInt?.toOption)
+      let fs : List String :=
+        (if !getBool obs "alive" then ["agent died on a peer heartbeat during its own outstanding heartbeat"] else []) ++
+        (if !getBool obs "peer_sent" then [] else
+          match gap with
+          | some g => if g < 0 then ["no further heartbeat of the agent was seen after the answered one"]
+                      else if 100 * g.toNat < 85 * iv then [s!"the agent's next heartbeat came {g} us after the peer's Heartbeat Request (interval {iv} us): a peer heartbeat that arrives while the agent's own is outstanding does not postpone the next one"] else []
+          | none => ["no gap recorded"])
+      let vac : List Verdict := if getBool obs "peer_sent" then [] else [.bad "the first heartbeat was not retransmitted: scenario vacuous"]
+      (st, o fs ++ vac)
     | "assocfeat" =>
       let conn := (getObj? j "connected").bind (·.getInt?.toOption)
       let feats := getNats obs "features"
